@@ -1,4 +1,5 @@
 import BrushVerif.Proofs.Highlight
+import BrushVerif.Proofs.Tokenizer
 /-!
 # C19 — syntax highlighting covers the typed line exactly
 
@@ -225,5 +226,245 @@ example : geomProg sampleTree = geomProg sampleTreeOtherShell ∧
     simp [highlight, highlightSt, sampleTreeOtherShell, hlProg, hlToks, hlPieces, hlPiece, appendSpan, skipAhead,
       setMissing, HS.init, byteOff, byteLen, kindForWord, classify, leafKind, Prog.line, Char.utf8Size,
       isBoundary, isBoundaryFrom]
+
+/-! ## The tokenizer (`Model/Tokenizer.lean`, tied to `brush-parser/src/tokenizer.rs` by the `K` requests)
+
+On the fragment the model covers (ordinary chars, blanks, newlines, `#`, operator chars, `'`, `"`, `\`;
+everything else is answered `unsupported`), for every line of any length and both option flags.
+Indices are char indices, as `SourcePosition::index` is. -/
+
+open BrushVerif.Tokenizer in
+/-- tokens in order from `lo`, non-overlapping, each with a non-empty span and a non-empty text that is no
+longer than its span, all inside `[0, n]` -/
+def TokensOrdered : Nat → List Token → Nat → Prop
+  | lo, [], n => lo ≤ n
+  | lo, t :: ts, n => lo ≤ t.start.index ∧ t.start.index < t.stop.index ∧ t.text ≠ [] ∧
+      t.text.length ≤ t.stop.index - t.start.index ∧ TokensOrdered t.stop.index ts n
+
+open BrushVerif.Tokenizer in
+private theorem ordered_of_ok (line : Str) : ∀ (ts : List Token) (lo : Nat), lo ≤ line.length →
+    ToksOK line lo ts → TokensOrdered lo ts line.length
+  | [], _, h, _ => h
+  | t :: ts, _, _, ⟨h1, h2⟩ =>
+    ⟨h1.1, h1.2.1, h1.2.2.2.1, h1.2.2.2.2.1, ordered_of_ok line ts _ h1.2.2.1 h2⟩
+
+open BrushVerif.Tokenizer in
+private theorem tokenize_ok (o : Opts) (line : Str) (ts : List Token) (h : tokenize o line = .ok ts) :
+    ToksOK line 0 ts := by
+  have := go_ok o line [] (fresh Pos.origin) 0 ts (inv_fresh [] Pos.origin rfl) h
+  simpa using this
+
+open BrushVerif.Tokenizer in
+/-- **Token spans are ordered, disjoint, non-empty and inside the line.** -/
+theorem tokens_ordered_in_bounds (o : Opts) (line : Str) (ts : List Token)
+    (h : tokenize o line = .ok ts) : TokensOrdered 0 ts line.length :=
+  ordered_of_ok line ts 0 (Nat.zero_le _) (tokenize_ok o line ts h)
+
+/-- the line `echo 'a b' "c;"|x # hi` (quotes, an operator inside and outside quotes, a comment) -/
+def tokSample : Str := "echo 'a b' \"c;\"|x # hi".toList
+
+open BrushVerif.Tokenizer in
+/-- non-vacuity: five tokens, the last gap is a comment -/
+example : ∃ ts, tokenize Opts.default tokSample = .ok ts ∧ ts.length = 5 ∧
+    ts.map (·.text) = ["echo".toList, "'a b'".toList, "\"c;\"".toList, "|".toList, "x".toList] := by
+  refine ⟨_, rfl, ?_, ?_⟩ <;> decide
+
+open BrushVerif.Tokenizer in
+/-- **Losslessness.**  A token built without swallowing a comment or a backslash-newline pair (`exact`,
+a ghost flag of the model) has exactly the text of the line between its span's ends — quotes and
+backslashes included. -/
+theorem token_text_is_line_slice_partial (o : Opts) (line : Str) (ts : List Token)
+    (h : tokenize o line = .ok ts) : ∀ t ∈ ts, t.exact = true →
+      t.text = slice line t.start.index t.stop.index := by
+  have hk := tokenize_ok o line ts h
+  have key : ∀ (ts : List Token) (lo : Nat), ToksOK line lo ts → ∀ t ∈ ts, t.exact = true →
+      t.text = slice line t.start.index t.stop.index := by
+    intro ts
+    induction ts with
+    | nil => intro _ _ t ht; cases ht
+    | cons a rest ih =>
+      intro lo hk t ht he
+      rcases List.mem_cons.mp ht with e | hm
+      · subst e
+        obtain ⟨bl, e1, _, e3⟩ := hk.1.2.2.2.2.2 he
+        rw [← e3]
+        exact ((slice_split line bl _ lo _ e1).1).symm
+      · exact ih _ hk.2 t hm he
+  exact key ts 0 hk
+
+open BrushVerif.Tokenizer in
+/-- the full statement: every token's text is the slice at its span -/
+def token_text_is_line_slice_full : Prop :=
+  ∀ (o : Opts) (line : Str) (ts : List Token), tokenize o line = .ok ts →
+    ∀ t ∈ ts, t.text = slice line t.start.index t.stop.index
+
+open BrushVerif.Tokenizer in
+/-- `#⏎`: the newline operator's span is [0,2) — it starts at the comment, because the comment loop
+does not move `start_position` — while its text is the newline alone. -/
+theorem token_text_is_line_slice_cex : ¬ token_text_is_line_slice_full := by
+  intro h
+  have := h Opts.default "#\n".toList [⟨.op, ['\n'], ⟨0, 1, 1⟩, ⟨2, 2, 1⟩, false⟩] (by decide) _
+    (List.mem_singleton.mpr rfl)
+  revert this
+  decide
+
+open BrushVerif.Tokenizer in
+/-- non-vacuity: all five tokens of the sample are exact, and `"c;"` is the slice 11..15 -/
+example : ∃ ts, tokenize Opts.default tokSample = .ok ts ∧ ts.all (·.exact) = true ∧
+    slice tokSample 11 15 = "\"c;\"".toList := by
+  refine ⟨_, rfl, ?_, ?_⟩ <;> decide
+
+open BrushVerif.Tokenizer in
+/-- every gap in front of an `exact` token consists of blanks only -/
+def GapsBlank (line : Str) : Nat → List Token → Prop
+  | _, [] => True
+  | lo, t :: ts => (t.exact = true → (slice line lo t.start.index).all isBlank = true) ∧
+      GapsBlank line t.stop.index ts
+
+open BrushVerif.Tokenizer in
+/-- **Nothing but blanks is dropped between tokens** (in front of a token built without a comment or
+line continuation): operators and words follow each other with only `is_blank` chars in between, so
+no char of the line is silently lost to a gap. -/
+theorem gaps_are_blanks_partial (o : Opts) (line : Str) (ts : List Token)
+    (h : tokenize o line = .ok ts) : GapsBlank line 0 ts := by
+  have hk := tokenize_ok o line ts h
+  have key : ∀ (ts : List Token) (lo : Nat), ToksOK line lo ts → GapsBlank line lo ts := by
+    intro ts
+    induction ts with
+    | nil => intro _ _; trivial
+    | cons a rest ih =>
+      intro lo hk
+      refine ⟨?_, ih _ hk.2⟩
+      intro he
+      obtain ⟨bl, e1, e2, e3⟩ := hk.1.2.2.2.2.2 he
+      rw [← e3, (slice_split line bl _ lo _ e1).2]
+      exact e2
+  exact key ts 0 hk
+
+open BrushVerif.Tokenizer in
+/-- text the tokenizer may drop: blanks, backslash-newline pairs, and a comment up to the end of the gap -/
+def skippable : Str → Bool
+  | [] => true
+  | '#' :: r => !r.contains '\n'
+  | '\\' :: '\n' :: r => skippable r
+  | c :: r => isBlank c && skippable r
+
+open BrushVerif.Tokenizer in
+def GapsSkippable (line : Str) : Nat → List Token → Prop
+  | _, [] => True
+  | lo, t :: ts => skippable (slice line lo t.start.index) = true ∧ GapsSkippable line t.stop.index ts
+
+open BrushVerif.Tokenizer in
+/-- the full statement: whatever lies between two token spans (or in front of the first) is blanks,
+comment text or backslash-newline pairs — for every token, `exact` or not -/
+def gaps_are_skippable_full : Prop :=
+  ∀ (o : Opts) (line : Str) (ts : List Token), tokenize o line = .ok ts → GapsSkippable line 0 ts
+
+open BrushVerif.Tokenizer in
+/-- ` \⏎ a`: the word `a` (index 4) is given the span [2,5): blanks move `start_position`, the
+continuation does not, so the gap [0,2) is a blank and *half* of the backslash-newline pair. -/
+theorem gaps_are_skippable_cex : ¬ gaps_are_skippable_full := by
+  intro h
+  have := (h Opts.default " \\\n a".toList [⟨.word, ['a'], ⟨2, 1, 3⟩, ⟨5, 2, 3⟩, false⟩] (by decide)).1
+  revert this
+  decide
+
+open BrushVerif.Tokenizer in
+/-- non-vacuity: in the sample the gaps in front of the five tokens are `""`, `" "`, `" "`, `""`, `""` -/
+example : slice tokSample 4 5 = [' '] ∧ slice tokSample 10 11 = [' '] ∧ slice tokSample 15 15 = [] := by decide
+
+open BrushVerif.Tokenizer in
+/-- **The tokenizer never hits its own assertion** (`assert!(state.started_token())` in the operator branch). -/
+theorem tokenize_never_panics (o : Opts) (line : Str) : tokenize o line ≠ .panic := by
+  have := go_no_panic o line [] (fresh Pos.origin) 0 (inv_fresh [] Pos.origin rfl)
+  exact this
+
+/-! ### The bridge: the token layer of `wfProg` is no longer an assumption on the fragment -/
+
+/-- operator?, start, end (char indices) of a token as the highlighter sees it -/
+def hlLayer : Tok → Bool × Nat × Nat
+  | .op s e => (true, s, e)
+  | .wordFail s e _ _ => (false, s, e)
+  | .word s e _ _ _ => (false, s, e)
+
+/-- the same of a tokenizer token -/
+def tokLayer (t : Tokenizer.Token) : Bool × Nat × Nat :=
+  (match t.kind with | .op => true | .word => false, t.start.index, t.stop.index)
+
+/-- the word parser's share of `wfToks`: the pieces of every parsed word are ordered and inside the
+word's byte range (still observed per line, not proved) -/
+def piecesWf (line : Str) : List Tok → Bool
+  | [] => true
+  | .word s e _ _ ps :: rest => wfPieces ps 0 (byteOff line e - byteOff line s) && piecesWf line rest
+  | .op _ _ :: rest => piecesWf line rest
+  | .wordFail _ _ _ _ :: rest => piecesWf line rest
+
+private theorem wfToks_of_ordered (line : Str) : ∀ (hts : List Tok) (ts : List Tokenizer.Token) (lo n : Nat),
+    TokensOrdered lo ts n → hts.map hlLayer = ts.map tokLayer → piecesWf line hts = true →
+    wfToks line hts lo = true := by
+  intro hts
+  induction hts with
+  | nil => intro _ _ _ _ _ _; simp [wfToks]
+  | cons a rest ih =>
+    intro ts lo n ho hl hp
+    cases ts with
+    | nil => simp at hl
+    | cons t ts' =>
+      simp only [List.map_cons, List.cons.injEq] at hl
+      obtain ⟨h1, h2, _, _, h5⟩ := ho
+      cases a with
+      | op s e =>
+        simp only [hlLayer, tokLayer, Prod.mk.injEq] at hl
+        obtain ⟨⟨_, hs, he⟩, hr⟩ := hl
+        simp only [piecesWf] at hp
+        subst hs; subst he
+        simp only [wfToks, Bool.and_eq_true, decide_eq_true_eq]
+        exact ⟨⟨h1, Nat.le_of_lt h2⟩, ih ts' _ n h5 hr hp⟩
+      | wordFail s e w c =>
+        simp only [hlLayer, tokLayer, Prod.mk.injEq] at hl
+        obtain ⟨⟨_, hs, he⟩, hr⟩ := hl
+        simp only [piecesWf] at hp
+        subst hs; subst he
+        simp only [wfToks, Bool.and_eq_true, decide_eq_true_eq]
+        exact ⟨⟨h1, Nat.le_of_lt h2⟩, ih ts' _ n h5 hr hp⟩
+      | word s e w c ps =>
+        simp only [hlLayer, tokLayer, Prod.mk.injEq] at hl
+        obtain ⟨⟨_, hs, he⟩, hr⟩ := hl
+        simp only [piecesWf, Bool.and_eq_true] at hp
+        subst hs; subst he
+        simp only [wfToks, Bool.and_eq_true, decide_eq_true_eq]
+        exact ⟨⟨⟨h1, Nat.le_of_lt h2⟩, hp.1⟩, ih ts' _ n h5 hr hp.2⟩
+
+/-- **Bridge.**  Whatever the highlighter builds on the tokenizer's tokens (same kinds and spans; any
+classification; any word-parser result whose pieces are well-formed) satisfies `wfProg`: the clauses
+of `wfToks` about the tokens themselves — `lo ≤ s`, `s ≤ e`, in order — are theorems on the fragment,
+only the `wfPieces` clause (word parser) remains an observed hypothesis. -/
+theorem tokenizer_output_is_wf (o : Tokenizer.Opts) (line : Str) (ts : List Tokenizer.Token) (hts : List Tok)
+    (h : Tokenizer.tokenize o line = .ok ts) (hl : hts.map hlLayer = ts.map tokLayer)
+    (hp : piecesWf line hts = true) : wfProg (.ok line hts) = true := by
+  simp only [wfProg]
+  exact wfToks_of_ordered line hts ts 0 line.length (tokens_ordered_in_bounds o line ts h) hl hp
+
+/-- **Tiling on the fragment, without the token-layer assumption.** -/
+theorem spans_tile_line_on_fragment (o : Tokenizer.Opts) (line : Str) (ts : List Tokenizer.Token)
+    (hts : List Tok) (cursor : Nat) (h : Tokenizer.tokenize o line = .ok ts)
+    (hl : hts.map hlLayer = ts.map tokLayer) (hp : piecesWf line hts = true) :
+    TilesFrom 0 (highlight (.ok line hts) cursor) (byteLen line) :=
+  spans_tile_line_partial (.ok line hts) cursor (tokenizer_output_is_wf o line ts hts h hl hp)
+
+/-- what the highlighter sees for `ls 'é'|x # c` — tokens as the tokenizer model returns them -/
+def fragTree : List Tok :=
+  [.word 0 2 "ls".toList .external [.leaf 0 2 .text], .word 3 6 "'é'".toList .notFound [.leaf 0 4 .quoted],
+   .op 6 7, .word 7 8 "x".toList .notFound [.leaf 0 1 .text]]
+
+/-- non-vacuity: the hypotheses hold for a line with a quoted multi-byte char, an operator and a comment,
+and the highlighter produces 6 spans for it -/
+example : ∃ ts, Tokenizer.tokenize Tokenizer.Opts.default "ls 'é'|x # c".toList = .ok ts ∧
+    fragTree.map hlLayer = ts.map tokLayer ∧ piecesWf "ls 'é'|x # c".toList fragTree = true ∧
+    (highlight (.ok "ls 'é'|x # c".toList fragTree) 0).length = 6 := by
+  refine ⟨_, rfl, by decide, ?_, ?_⟩
+  · simp [piecesWf, fragTree, wfPieces, wfPiece, pieceEnd, byteOff, byteLen, Char.utf8Size]
+  · simp [highlight, highlightSt, fragTree, hlProg, hlToks, hlPieces, hlPiece, appendSpan, skipAhead,
+      HS.init, byteOff, byteLen, kindForWord, classify, leafKind, Prog.line, Char.utf8Size]
 
 end BrushVerif.C19
